@@ -46,7 +46,7 @@ M = [
  ("c05-drift-times-sec-only", ["C05", "C01"], SHM + "lib.rs", "let duration_sec = duration.num_nanoseconds() as f64 / 1_000_000_000_f64;", "let duration_sec = duration.num_seconds() as f64;"),
  # ---- C06
  ("c06-grace-le", ["C06"], SHM + "lib.rs", "if mono < as_of + CLOCKBOUND_RESTART_GRACE_PERIOD {", "if mono <= as_of + CLOCKBOUND_RESTART_GRACE_PERIOD {"),
- ("c06-void-le", ["C06"], SHM + "lib.rs", "} else if mono < void_after {", "} else if mono <= void_after {"),
+ ("c06-void-le", ["control:C06"], SHM + "lib.rs", "} else if mono < void_after {", "} else if mono <= void_after {"),
  ("c06-grace-50s", ["C06"], SHM + "lib.rs", "const CLOCKBOUND_RESTART_GRACE_PERIOD: TimeSpec = TimeSpec::new(5, 0);", "const CLOCKBOUND_RESTART_GRACE_PERIOD: TimeSpec = TimeSpec::new(50, 0);"),
  ("c06-freerunning-arm-stored", ["C06"], SHM + "lib.rs", "                    // Beyond the grace period, for a free running status.\n                    ClockStatus::FreeRunning", "                    // Beyond the grace period, for a free running status.\n                    self.clock_status"),
  # ---- C07
@@ -87,6 +87,7 @@ M = [
  ("c13-refid-ne", ["C13"], D + "chrony_poller.rs", "Some(phc_info) if phc_info.refid == tracking.ref_id => {", "Some(phc_info) if phc_info.refid != tracking.ref_id => {"),
  ("c13-phc-error-ignored", ["C13"], D + "chrony_poller.rs", "                                    error!(\"Failed to retrieve PHC error bound: {:?}\", e);\n                                    if poller.is_within_grace_period() {\n                                        Message::PhcErrorBoundRetrievalFailedGracePeriod", "                                    error!(\"Failed to retrieve PHC error bound: {:?}\", e);\n                                    if true {\n                                        Message::ClockErrorBoundData((tracking, 0, as_of))\n                                    } else if poller.is_within_grace_period() {\n                                        Message::PhcErrorBoundRetrievalFailedGracePeriod"),
  # ---- C14
+ ("c14-blur-1ms-control", ["control:C14"], SHM + "lib.rs", "let causality_blur = as_of - TimeSpec::new(0, 1000);", "let causality_blur = as_of - TimeSpec::new(0, 1_000_000);"),
  ("c14-blur-1s", ["C14"], SHM + "lib.rs", "let causality_blur = as_of - TimeSpec::new(0, 1000);", "let causality_blur = as_of - TimeSpec::new(1, 0);"),
  ("c14-drift-gt", ["C14"], SHM + "lib.rs", "if self.max_drift_ppb >= 1_000_000_000 {", "if self.max_drift_ppb > 1_000_000_000 {"),
  ("c14-ffi-causality-as-malformed", ["C14", "C17"], "clock-bound-ffi/src/lib.rs", "            ShmError::CausalityBreach => clockbound_err_kind::CLOCKBOUND_ERR_CAUSALITY_BREACH,", "            ShmError::CausalityBreach => clockbound_err_kind::CLOCKBOUND_ERR_SEGMENT_MALFORMED,"),
